@@ -236,7 +236,7 @@ def configs(tier):
                     if cb_ >= 11:
                         add(memtype=mt, nphases=nph, bankbits=bb, rowbits=13, colbits=cb_, ap=True, structured=True)
                         continue
-                    if cb_ - int(math.log2(nph if mt == "SDR" else {"DDR": 4, "DDR3": 8, "DDR4": 8}[mt])) + bb + 3 > 13: continue
+                    if cb_ - int(math.log2(nph if mt == "SDR" else {"DDR": 4, "DDR3": 8, "DDR4": 8}[mt])) + bb + 3 > 12: continue      # complete enumeration of at most 2^12 port addresses per configuration (the 2^13 ones took hours)
                     add(memtype=mt, nphases=nph, bankbits=bb, rowbits=3, colbits=cb_)
         for bba in (1 << 8, 1 << 10, 1 << 13):
             add(memtype="DDR3", nphases=4, bankbits=3, rowbits=3, colbits=10, bank_byte_alignment=bba)
